@@ -50,8 +50,20 @@ NOT_YET = "check not built yet (construction in progress, DESIGN.md 8a); will be
 
 def main():
     checks = []
+    LADDER = {"C01","C02","C03","C04","C05","C06","C07","C08","C10","C12","C13","C16","C17","C18"}
+    HIST = {"C01": "held values re-parsed", "C02": "parse operations", "C03": "formatting into a sink that fails after every number of bytes; held values", "C08": "typed parses and builds",
+            "C09": "build operations incl. parse-back", "C10": "held values re-built", "C11": "try_from_iter", "C12": "checksum texts and typed checksums", "C15": "PackageType::from_str",
+            "C16": "serde in both directions for both PURL types", "C18": "combined-name builds"}
     for pid in sorted(CHECKS):
         cat, ref, tech, text = CHECKS[pid]
+        if pid in LADDER:
+            tech += "; size ladders (every component length and every element count up to a bound)"
+            text += " Also every string of the size ladder A11 (every length 0..300 of every component, every count 0..80 of qualifiers / checksum entries / segments; larger in the thorough tier)."
+        if pid in ("C09", "C11"):
+            tech += "; size ladders through the API (every collection size x every position x every operation kind)"
+        if pid in HIST:
+            tech += "; exhaustive exploration of operation sequences over independent objects (every operation directly after every other operation, depth 2 and 3, against the outcome alone in a fresh thread)"
+            text += f" History independence (Engine H, judged: {HIST[pid]}): over an alphabet of about 3200 operations, which includes every kind of refused call, the outcome of an operation on fresh arguments is the same alone and after every other operation (all pairs; triples over a sub-alphabet)."
         checks.append({
             "property_id": pid,
             "quick_cmd": f"./check {pid} --tier quick",
